@@ -266,8 +266,37 @@ namespace
             .raw("ns", ns.str());
     }
 
+    // the power-of-two policy over the whole 64-bit range: sizes 2^k - 1, 2^k, 2^k + 1 for k = 3..62.  The sizes do
+    // not fit TLC's integers, so the row carries k, d and - of the node size the policy names for that size - the
+    // floor of its binary logarithm and whether it is a power of two (computed here with plain shifts)
+    void bucket_big_row()
+    {
+        IntList ks, ds, lg, p2, rt;
+        for (int k = 3; k <= 62; ++k)
+            for (int d = -1; d <= 1; ++d)
+            {
+                std::size_t s   = (std::size_t(1) << k) + static_cast<std::size_t>(static_cast<long long>(d));
+                std::size_t i   = det::log2_access_policy::index_from_size(s);
+                std::size_t sfi = det::log2_access_policy::size_from_index(i);
+                int         l   = -1;
+                for (std::size_t v = sfi; v; v >>= 1)
+                    ++l;
+                ks.add(static_cast<std::size_t>(k));
+                ds.add(static_cast<std::size_t>(d + 1));
+                lg.add(static_cast<std::size_t>(l + 1)); // 0 = the size was 0
+                p2.add(sfi != 0 && (sfi & (sfi - 1)) == 0 ? 1u : 0u);
+                rt.add(det::log2_access_policy::index_from_size(sfi) == i ? 1u : 0u); // the node size maps to its own bucket
+            }
+        Ev("bucketbig").raw("k", ks.str()).raw("d", ds.str()).raw("lg", lg.str()).raw("p2", p2.str()).raw("rt", rt.str());
+    }
+
     void do_bucket(const Exec& x)
     {
+        if (x.str("policy", "log2") == "log2big")
+        {
+            bucket_big_row();
+            return;
+        }
         std::string list = x.str("list", "node"), policy = x.str("policy", "log2");
         bool        log2 = policy == "log2";
         if (policy != "log2" && policy != "identity")
